@@ -7,19 +7,12 @@ trees with text merging, attribute merging, template contents, re-parenting, the
 contract-abiding case and also checks parent-link consistency and serializer visit order directly on
 the implementation's dump.
 
-Two defects of rcdom/lib.rs are expected to be reported on the unchanged tree (KNOWN_MATCHERS ids
-`C20-selectedcontent`, `C20-before-sibling-reinsert`; minimal cases in corpus/C20/).  PROPOSED_PATCH
-below repairs both; it was validated on a scratch copy of rcdom (all cases of this module: 0 oracle
-failures, 0 disagreements with the model with both switches flipped).  After /repo is repaired:
-  * lean/H5V/Model/Dom.lean: `cloneVariant := .fixed` (selectedcontent) and/or
-    `beforeSiblingVariant := .detachFirst` (append_before_sibling);
-  * lean/H5V/Props/C20.lean: for `.detachFirst` nothing else (the general theorems hold for both
-    values; `C20_witness_before_sibling` then describes the old code only); for `.fixed`
-    `apply_eq_asCode` stops compiling — `WF`/`Kinds` preservation of `Dom.cloneOptionInto .fixed` is
-    not proved yet — and `C20_witness_clone_option` must go;
-  * harness/src/sinkops.rs: the shadow assumes `mc` detaches no handle-bearing node (see the NOTE
-    in `maybe_clone_an_option_into_selectedcontent`): after the repair the replaced children of the
-    selectedcontent are detached, mirror that there if a false CONTRACT-VIOLATION ever shows up.
+Two defects of rcdom/lib.rs were found by this check on the pinned tree and are repaired in /repo
+(ebdbd68 selectedcontent mirroring, 394a5e0 append_before_sibling detaches first) exactly as
+PROPOSED_PATCH below (kept for the record); their minimal cases stay in corpus/C20/ as regression
+corpus, KNOWN_MATCHERS name them.  The model follows the repaired code
+(`cloneVariant = .fixed`, `beforeSiblingVariant = .detachFirst` in lean/H5V/Model/Dom.lean); the
+pinned behaviour is kept there as the explicitly named variants `.asCode`, with witness theorems.
 """
 import os
 import sys
@@ -139,8 +132,9 @@ THEOREMS = ["H5V.Props.C20." + t for t in [
     "C20_text_merge_append", "C20_text_merge_before_sibling", "C20_no_adjacent_text_append",
     "C20_no_adjacent_text_before_sibling", "C20_no_adjacent_text_step", "C20_remove_breaks_adjacency_iff", "C20_reparent_breaks_adjacency_iff",
     "C20_attrs", "C20_attrs_no_overwrite", "C20_reparent", "C20_remove_from_parent", "C20_template_contents",
-    "C20_before_sibling_position_partial", "C20_witness_before_sibling",
-    "C20_clone_asCode_noop", "C20_clone_option_partial", "C20_witness_clone_option", "C20_clone_option_fixed_example",
+    "C20_before_sibling_position", "C20_before_sibling_position_partial", "C20_witness_before_sibling",
+    "C20_clone_option_partial", "C20_clone_option_nothing", "C20_clone_option_fixed_example",
+    "C20_clone_asCode_noop", "C20_clone_option_pinned_partial", "C20_witness_clone_option",
     "C20_serialize_preorder", "C20_serialize_each_node_once",
 ]]
 TRUSTED = [
@@ -167,7 +161,8 @@ RULE = ("TreeSink call traces replayed on RcDom (through the trait, under the co
         "a shadow model. non-trivial = dump has ≥ 3 nodes; distinct = distinct (case, output)")
 EXPLANATION = ("theorems: every sink op preserves parent-link consistency + acyclicity for all well-formed arenas and "
                "contract-abiding calls (lifted to all op sequences), text merging, attribute merging, reparenting, "
-               "template contents, removal, option cloning (partial + witness), serializer order = preorder, each node once")
+               "template contents, removal, option cloning (invariant + top-level copy; pinned-tree witnesses), "
+               "append_before_sibling position, serializer order = preorder, each node once")
 SHARD_TIMEOUT = 600
 
 ROOT = os.path.dirname(os.path.dirname(os.path.dirname(os.path.abspath(__file__))))
@@ -1109,7 +1104,7 @@ def neighbourhood(line):
 def extra_evidence(check):
     return {
         "harvest": _STATS.get("harvest"),
-        "clone_variant_modelled": "asCode (H5V.Model.Dom.cloneVariant); the oracle demands the standard's behaviour",
-        "before_sibling_variant_modelled": "asCode (H5V.Model.Dom.beforeSiblingVariant); the oracle demands insertion immediately before the sibling",
-        "proposed_patch": PROPOSED_PATCH,
+        "clone_variant_modelled": "fixed (H5V.Model.Dom.cloneVariant) = /repo ebdbd68; the oracle demands the standard's behaviour",
+        "before_sibling_variant_modelled": "detachFirst (H5V.Model.Dom.beforeSiblingVariant) = /repo 394a5e0; the oracle demands insertion immediately before the sibling",
+        "repaired_by": ["ebdbd68", "394a5e0"],
     }
